@@ -583,6 +583,10 @@ func (c *Ctx) streamRef(env *CEnv, v CVal) string {
 		}
 		switch x := v.V.(type) {
 		case IfaceV:
+			// a value of static interface type I cannot hold a T that does not implement I (a box is no io.ReadSeeker)
+			if it, ok := v.T.Underlying().(*types.Interface); ok && v.T != nil && !types.Implements(t, it) {
+				continue
+			}
 			out = fmt.Sprintf("(ite (= %s %d) %s %s)", x.Tag, c.w.typeTag(t), deref(), out)
 		default:
 			if v.T != nil && types.Identical(v.T, t) {
